@@ -1,5 +1,5 @@
 """C06 — active fabric (see DESIGN §8): Lean Conc.Fab model tied to the real fabric threads under dsched."""
-import fabric_corr, pubsub_corr
+import fabric_corr, pubsub_corr, subfine_corr
 
 
 def explore(run, lean):
@@ -11,6 +11,7 @@ def explore(run, lean):
     # subscriptions made by active objects (before start: queued as a meta event; after start: direct), fifo / lifo / both
     pubsub_corr.explore(run, 24 if run.tier == "quick" else 216)
     pubsub_corr.explore_position(run, focus="C07")
+    subfine_corr.explore(run, "C06", 40 if run.tier == "quick" else 1000)
     run.extra["rule"] = ("(a) scenarios: 1-4 subscriber queues (plain deques and active-object LockingDeques, several of them empty = equal "
                          "contents), one or two client threads issuing subscribe/publish/start/stop/clear/is_alive (start/stop/clear "
                          "from one thread only); half of them structured (subscribe*, publish* before the first start = maximal "
@@ -23,6 +24,8 @@ def explore(run, lean):
 
 
 def replay(case):
+    if case.get("case", case).get("what") == "subscribe-steps":
+        return subfine_corr.replay(case)
     cc0 = case.get("case", case)
     if "sub_when" in cc0:
         return pubsub_corr.replay(case)
